@@ -40,7 +40,6 @@ THEOREMS = [NS + t for t in ['C14_types_accepted', 'C14_types_resolved', 'C14_ex
                                              'C14_proto_annotations', 'C14_proto_list', 'C14_proto_lossless_partial', 'C14_proto_not_injective_outside']] + \
            ['Scalibr.Sbom.' + t for t in ['C14_spdx_fields', 'C14_spdx_not_verbatim', 'C14_cdx_fields']]
 KF_GOCASE = 'C14/golang-case-normalised'
-KF_GRADLE = 'C14/gradle-empty-artifact'
 PROTO_KEYS = ['name', 'version', 'locs', 'src', 'anns', 'layer', 'purl', 'eco', 'ex', 'meta', 'pstr']
 KF_NOLOC = 'C14/no-location'
 NOLOC_EXTRACTORS = {'chrome/extensions', 'dotnet/pe'}
@@ -248,12 +247,6 @@ def run(ctx):
         # strings differ in letter case only (packageurl-go lower-cases golang namespace/name; Go module paths are case-sensitive)
         if t[0] == 'boundary' and issues_of(fi) == ['no-location'] and unhex(t[1]) in NOLOC_EXTRACTORS:
             return KF_NOLOC
-        # class predicate: gradle.lockfile line with an EMPTY artifact (`group::version=…`): the only issue is the rejected purl and
-        # every witness is a package whose name ends in ':'
-        if t[0] == 'boundary' and unhex(t[1]) == 'java/gradlelockfile' and issues_of(fi) == ['purl-rejected']:
-            wit = [unhex(b) for b in fi.get('bad', '-').split(',') if b != '-']
-            if wit and all(w.split(' | ')[1].split('@')[0].endswith(':') for w in wit):
-                return KF_GRADLE
         if t[0] in ('harvest', 'layout', 'boundary') and issues_of(fi) and set(issues_of(fi)) <= {'purl-roundtrip-differs', 'mut-purl-roundtrip-differs'}:
             wit = [unhex(b) for b in fi.get('bad', '-').split(',') if b != '-']
             pairs = [w.split(' | ')[2].split(' -> ') for w in wit if ' -> ' in w]
